@@ -24,6 +24,10 @@ for pid, txt, ref in [
   ('C04', 'Same schedules; oracle: at the transition at which any node commit index advances over p a majority of voters stores that (term, command) at p; every committed position stays on a majority in every state; a committed position never shows another entry on a node reporting it committed; commit/applied indices monotone; log matching between all node pairs.', '4/C04'),
 ]:
     CLAIMED[pid] = dict(engine='E1', technique=RAFT_TECH, text=txt, note=RAFT_NOTE, ref=ref)
+CLAIMED['C05'] = dict(engine='E1', technique='explicit-state BFS over real SyncObj nodes; from every reached state (including the states of the scripted seed prefixes) a deterministic fair closing run must converge', text='From EVERY state reached by the fault-budgeted exploration: heal (all links / a bare majority, low and high ids), fair round-robin ticks with FIFO delivery for 10 maximal election timeouts of virtual time, then one submission per connected node and a second period; oracle: exactly one leader, all agree on it, every post-heal submission SUCCESS, all connected replicas equal applied index and object state.', note='one fair schedule per history, not all fair schedules; ' + RAFT_NOTE, ref='4/C05')
+CLAIMED['C11'] = dict(engine='E1', technique='exhaustive enumeration of an input grid (payload sizes x batch sizes x journal kinds x append modes x argument shapes), each grid point executed on real SyncObj nodes', text='Every payload length 0..4*batch+64 for batch sizes 1, 7, 64, 200 and the bands k*batch+-64 (k=1..4) for 4096 and 65536, memory and file journal (simulated FS), batch and non-batch mode, positional/keyword/both/nested/no arguments, submitted on leader (and via a follower, thorough): no exception escapes any step, every replica executes the call exactly once with equal arguments, callback SUCCESS.', note='default schedule per grid point (submit, heartbeats, FIFO delivery to quiescence); content of the payload is a fixed pattern; quick tier thins the 64 KiB bands and some file/non-batch ranges (listed per job in the evidence)', ref='4/C11')
+CLAIMED['C12'] = dict(engine='E1', technique='explicit-state BFS over real SyncObj nodes with ok / raising submissions on every node; closing run from every state', text='All interleavings of up to 4 (quick: 2-4) ok/raising submissions on leader and followers with ticks and deliveries, 1-3 nodes, batch and non-batch: no exception escapes a tick or handler; each callback exactly once; from every state the closing run shows every replica past the raising command, later commands applied, replicas equal, every callback fired.', note='raising method = deterministic ValueError on every replica; fault-free network in these jobs; replay-from-journal variant is part of the C06 machinery', ref='4/C12')
+CLAIMED['C20'] = dict(engine='E1', technique='explicit-state BFS over real SyncObj nodes with fallback-sized time steps; ghost silence clocks per (leader, peer)', text='2-5 voters (+1 observer), fallback timeout 1.5x / 3.5x the heartbeat period and 30 s, all patterns of endpoint-noticed and black-holed link loss within the X budget interleaved with heartbeats, fallback-sized ticks and submissions: after every tick of a leader that has not heard from a majority within the timeout it no longer reports itself leader; a submission made while physically cut off from a majority is never answered SUCCESS while still cut off; hasQuorum equals connected-to-a-majority in every state.', note='a node can only step down when it ticks, so the oracle is evaluated after each tick; heard-from = any delivered message (the implementation counts only acknowledgements and can only be more eager); ' + RAFT_NOTE, ref='4/C20')
 NOT_YET = {}
 for i in ids:
     if i not in CLAIMED:
